@@ -8,8 +8,13 @@ C04 — Scan conversion covers exactly the pixels whose centres are inside.
   `Retro.Props.C04.Edge`  : the slice rule IS the three-edge-function test with a top-left-style tie rule
                             (`sliceRule_iff_inside`, `trifill_covers_iff_inside`), `inside_perm`, and the
                             shared-edge partition (`trifill_shared_edge_no_overlap`, `…_no_gap`), `inside_bary`
+  `Retro.Props.C04.RowsF32` : IEEE binary32 bit level — the ROWS a scan visits in f32 are exactly the rows of the
+                            exact model on the exact values of the same inputs, for |y| ≤ 2^23 − 1 (`rowsF_exact`,
+                            `rowsF_eq_scan_rows`, `rowsF_increasing`, `rowsF_nodup`, `mem_rowsF_iff`, `trifill_rowsF`),
+                            with witnesses of what fails beyond the bound
 -/
 import Retro.Props.C04.Scan
 import Retro.Props.C04.Slice
 import Retro.Props.C04.Order
 import Retro.Props.C04.Edge
+import Retro.Props.C04.RowsF32
